@@ -5,9 +5,12 @@
 #include "squid.h"
 #include "HttpHdrCc.h"
 #include "base/Packable.h"
+#include "SquidConfig.h"
 #include "SquidString.h"
 
 #include "vharness.h"
+
+class SquidConfig Config;   // the unit test of this link set defines it in its own (replaced) object
 
 #include <climits>
 #include <cstdarg>
@@ -89,7 +92,7 @@ bool refQuoted(const std::string &s, std::string &out)
 }
 
 enum OccCls { O_VALID, O_INVALID, O_GREY, O_TRAIL };
-struct Occ { OccCls cls; long long num = -1; std::string list; };
+struct Occ { OccCls cls; long long num = -1; std::string list; bool quotedPair = false; };
 
 struct Expect {
     std::vector<Occ> occ[NKNOWN];
@@ -162,7 +165,7 @@ Expect refParse(const std::string &h)
         else {
             std::string l;
             if (!hasArg) o.cls = O_VALID;
-            else if (refQuoted(arg, l)) { o.cls = O_VALID; o.list = l; }
+            else if (refQuoted(arg, l)) { o.cls = O_VALID; o.list = l; o.quotedPair = arg.find('\\') != std::string::npos; }
             else o.cls = O_GREY;
         }
         x.occ[k].push_back(o);
@@ -308,19 +311,27 @@ void checkHeader(const std::string &h)
                     if (!match) {
                         bool trailMatch = false;
                         for (const Occ &o : occ) if (o.cls == O_TRAIL && o.num == got) trailMatch = true;
+                        bool anyInvalidOcc = false;
+                        for (const Occ &o : occ) if (o.cls == O_INVALID || o.cls == O_TRAIL) anyInvalidOcc = true;
                         if (trailMatch) failOnce("numeric-arg:trailing-garbage-accepted", ctx + d.name + " took its value from an argument with trailing garbage");
+                        else if (d.id == HttpHdrCcType::CC_MAX_STALE && got == ANY && anyInvalidOcc)
+                            failOnce("max-stale:invalid-value-means-any", ctx + "a max-stale occurrence with an invalid value was not treated as absent but as max-stale without a value (and shadows the valid occurrence)");
                         else V::fail(ctx + d.name + " has value " + std::to_string(got) + ", none of the valid values written in the header");
                     }
                 } else if (d.kind == K_LIST) {
                     ++nListValid;
                     const std::string got = S(d.id == HttpHdrCcType::CC_PRIVATE ? cc.private_ : cc.no_cache);
-                    bool match = false;
+                    bool match = false, qp = false;
                     std::string joined;
                     for (const Occ *o : valid) {
                         if (o->list == got) match = true;
+                        if (o->quotedPair) qp = true;
                         if (!o->list.empty()) { if (!joined.empty()) joined += ","; joined += o->list; }
                     }
-                    if (!match && joined != got) V::fail(ctx + d.name + " field list is [" + V::esc(got) + "], not what the header says");
+                    if (!match && joined != got) {
+                        if (qp) failOnce("quoted-string:quoted-pair-mishandled", ctx + d.name + " field list is [" + V::esc(got) + "]: a quoted-pair (backslash + octet) inside the quoted-string was not unescaped to that octet");
+                        else V::fail(ctx + d.name + " field list is [" + V::esc(got) + "], not what the header says");
+                    }
                 }
             } else {
                 // no valid occurrence: must be absent
